@@ -93,14 +93,20 @@ class Prop:
         improved = True
         while improved and steps < budget:
             improved = False
-            for cand in self.shrink_candidates(cur):
-                steps += 1
-                if steps >= budget:
-                    break
-                w = self.judge(cand, self.observe(cand))
-                if w:
-                    cur, why, improved = cand, w, True
-                    break
+            try:
+                for cand in self.shrink_candidates(cur):
+                    steps += 1
+                    if steps >= budget:
+                        break
+                    try:
+                        w = self.judge(cand, self.observe(cand))
+                    except Exception:
+                        continue     # a candidate the harness cannot run is not a smaller failing case
+                    if w:
+                        cur, why, improved = cand, w, True
+                        break
+            except Exception:
+                break                # shrinking is best effort: the unshrunk failing case is reported
         return cur, why
 
 
